@@ -231,7 +231,7 @@ func (x *world) proveWatch(wt *watcher) bool {
 
 // waitActive waits until some not-stopped watcher has taken the lock and is at
 // rest: a free one has opened its stream and proved its watch, a held one has
-// finished its init pass.
+// reached its (held) NodeStatusStream call.
 func (x *world) waitActive() string {
 	deadline := time.Now().Add(6 * time.Second)
 	type base struct{ streams, lists int }
@@ -244,11 +244,10 @@ func (x *world) waitActive() string {
 			if wt.held {
 				select {
 				case <-wt.cw.holdReach:
-					if lists > 0 {
-						x.quiet(200*time.Millisecond, 3*time.Second)
-						x.active = wt
-						return "held-active"
-					}
+					_ = lists
+					x.quiet(200*time.Millisecond, 3*time.Second)
+					x.active = wt
+					return "held-active"
 				default:
 				}
 			} else if streams > 0 && lists > 0 {
@@ -475,10 +474,13 @@ func (x *world) waitTakeover(sessions map[*watcher]int) string {
 			}
 			_, _, streams, lists, _ := wt.cw.snapshot()
 			if wt.held {
-				if lists > sessions[wt] {
+				select {
+				case <-wt.cw.holdReach:
+					_ = lists
 					x.quiet(200*time.Millisecond, 3*time.Second)
 					x.active = wt
 					return "held-takeover"
+				default:
 				}
 			} else if streams > sessions[wt] && lists > 0 {
 				if x.proveWatch(wt) {
@@ -553,7 +555,8 @@ func coqCase(res result) string {
 
 // lapseInStartWindow describes the INPUT: a lapse happens while the only
 // started watchers have their NodeStatusStream call held back (lock taken,
-// init pass done, watch not yet open).
+// watch not yet open).  Before /repo commit 26913a3 the init pass had already
+// run at that point and the lapse was missed for good.
 func lapseInStartWindow(acts []action) bool {
 	free, held := map[int]bool{}, map[int]bool{}
 	alive := map[int]bool{}
